@@ -23,6 +23,7 @@ import ast
 from .project import unparse
 
 FRESH_METHODS = {"copy", "astype", "flatten", "tolist", "sum", "mean", "max", "min", "round", "clip", "repeat", "dot", "conj", "cumsum", "nonzero", "format", "keys", "values", "items", "get", "index", "count", "average"}
+NP_ALIASING = {"asarray", "asanyarray", "ascontiguousarray", "asfarray", "atleast_1d", "atleast_2d", "squeeze", "ravel", "reshape", "transpose", "broadcast_to", "real", "array"}
 MUTATORS = {"append", "extend", "insert", "update", "setdefault", "pop", "popitem", "clear", "sort", "reverse", "remove", "fill", "resize", "put", "itemset", "partition"}
 
 
@@ -326,6 +327,23 @@ class _Walker:
                 self.add_elts(tgt.objs, add)
             return EMPTY
         if not cands:
+            # numpy functions that may hand back THEIR ARGUMENT (no copy when it already is an array of the requested type)
+            # or a view of it, and the `out=` convention (the result IS the out array)
+            if isinstance(fn, ast.Attribute) and _np_root(fn) and fn.attr in NP_ALIASING and node.args:
+                v = self.ev(node.args[0])
+                for a in node.args[1:]:
+                    self.ev(a)
+                if not any(k.arg == "copy" and isinstance(k.value, ast.Constant) and k.value.value is True for k in node.keywords):
+                    return v
+            if isinstance(fn, ast.Attribute) and not _np_root(fn) and fn.attr in ("view", "reshape", "ravel", "squeeze", "transpose", "swapaxes") :
+                return self.ev(fn.value)
+            outk = [k.value for k in node.keywords if k.arg == "out"]
+            if outk and isinstance(fn, ast.Attribute) and _np_root(fn):
+                for a in node.args:
+                    self.ev(a)
+                tgt = self.ev(outk[0])
+                self.mutate(tgt.objs, node, "out= of %s" % unparse(fn)[:30])
+                return tgt
             if isinstance(fn, ast.Attribute) and (fn.attr in FRESH_METHODS or _np_root(fn)):
                 return EMPTY
             if isinstance(fn, ast.Name) and fn.id in _BUILTINS:
